@@ -157,6 +157,8 @@ class ConcreteAPI(object):
             allowed = (self.TraphException,)
         try:
             return True, fn(*args, **kw)
+        except (CheckFailed, ScenarioMismatch):
+            raise
         except allowed as e:
             return False, e
         except Exception as e:
